@@ -122,6 +122,12 @@ class GX(gen.G):
             if ty[1] == "int" and r < 18:
                 # component-wise comparison of two vectors of equal size (float or int)
                 src = self.pick([M.vec("float", ty[2]), ty])
+                if self.feat.get("mixed_components", True) and self.chance(20):
+                    # int vector compared with float vector (either side)
+                    a, b = M.vec("int", ty[2]), M.vec("float", ty[2])
+                    if self.chance(50):
+                        a, b = b, a
+                    return M.Bin(self.pick(M.CMP), self.vexpr(a, depth - 1), self.vexpr(b, depth - 1))
                 left = self.vexpr(src, depth - 1)
                 same = [n for n, t in self.visible().items() if t == src]
                 if same and self.chance(45):
@@ -137,9 +143,17 @@ class GX(gen.G):
                     return M.Bin(self.pick(M.CMP), left, right)
                 return M.Bin(self.pick(M.CMP), left, self.vexpr(src, depth - 1))
             if r < 45:
-                return M.Bin(self.pick(["+", "-"]), self.vexpr(ty, depth - 1), self.vexpr(ty, depth - 1))
+                l, rr = self.vexpr(ty, depth - 1), self.vexpr(ty, depth - 1)
+                if ty[1] == "float" and self.feat.get("mixed_components", True) and self.chance(25):
+                    # one operand is an int vector of the same size: promoted component-wise (C09)
+                    other = self.vexpr(("v", "int", ty[2]), depth - 1)
+                    l, rr = (other, rr) if self.chance(50) else (l, other)
+                return M.Bin(self.pick(["+", "-"]), l, rr)
             if r < 70:
-                return M.Bin("*", self.vexpr(ty, depth - 1), self.expr(cty, depth - 1))
+                sc = self.expr(cty, depth - 1)
+                if ty[1] == "float" and self.feat.get("mixed_components", True) and self.chance(20):
+                    sc = self.expr(INT, depth - 1)
+                return M.Bin("*", self.vexpr(ty, depth - 1), sc)
             if r < 82:
                 rhs = self.nonzero_lit(cty) if (cty == INT or self.chance(70)) else self.expr(cty, depth - 1)
                 return M.Bin("/", self.vexpr(ty, depth - 1), rhs)
